@@ -438,7 +438,24 @@ def execute_order(case: dict):
 def config_items(seed: int, n: int, tier: str) -> list[dict]:
     st = Streams(seed)
     rng = st("cfgitems")
-    return [j for j in (gen_job(st, rng, tier, seed, t, 1) for t in range(n)) if j["kind"] == "text"]
+    items = [j for j in (gen_job(st, rng, tier, seed, t, 1) for t in range(n)) if j["kind"] == "text"]
+    # every construct of the zoo several times with a tiny tag range, so that documents of one construct share gap
+    # strings, operands and comments: a process-wide memo keyed by such a string shows as an order dependence
+    from . import zoo
+
+    for k, kind in enumerate(zoo.Zoo.KINDS):
+        if kind in ("merge", "inherit"):
+            continue
+        for rep in range(10):
+            z = zoo.Zoo(st("cfgzoo%d_%d" % (k, rep)), (seed + rep) % 3 + 1)
+            z.slots, z.extra = [], {}
+            body = z.construct(kind, "    ")
+            if kind in ("binop", "if", "apply", "let", "with", "assert", "lambda", "has_attr", "unary", "select", "formals"):
+                body = "(" + body + ")"
+            text = "{\n  pre = 1;\n  k = " + body + ";\n  post = 2;\n}\n"
+            if not reader.Doc(text).has_error():
+                items.append({"kind": "text", "doc": text, "ops": [], "refs": False, "zoo": kind})
+    return items
 
 
 def config_child(seed: int, n: int, tier: str, order: str = "forward") -> int:
